@@ -21,7 +21,7 @@ import (
 
 func isLemmaUnit(name string) bool {
 	i := strings.LastIndex(name, ".")
-	return i >= 0 && strings.HasPrefix(name[i+1:], "verifLemma")
+	return i >= 0 && (strings.HasPrefix(name[i+1:], "verifLemma") || strings.HasPrefix(name[i+1:], "VerifLemma"))
 }
 
 // lemmaAxiomText builds (once) the axioms of all lemma functions that have a trigger clause.
@@ -108,7 +108,7 @@ func (x *Exec) lemmaAxiomOf(fn *ssa.Function, c *Contract) (string, bool) {
 		pre = append(pre, t)
 	}
 	for _, cl := range c.Ensures {
-		if cl.Kind == "lemma" {
+		if cl.Kind == "lemma" || cl.Kind == "apply" {
 			continue
 		}
 		t, ok := eval(cl)
